@@ -13,7 +13,7 @@ from vt.harness import Outcome, exc_bucket
 
 ID = "C12"
 LEVEL = "exploration"
-CASES = {"quick": 3000, "thorough": 400000}
+CASES = {"quick": 2000, "thorough": 400000}
 RULE = ("RREL trees (depth<=2, <=3 paths, <=3 elements per path, all operators, flags '' +m: +p: +mp: +pm:, "
         "fixed names over an alphabet with both quote characters and backslashes, optional blanks between tokens) "
         "printed by the harness' printer; round trip parse->str->parse compared structurally, then both trees "
